@@ -289,7 +289,7 @@ R.contract("Node._receive_app_answer", params={"self": "Node", "conn": "PeerConn
                                            "items(self.g_ans_app) == old(items(self.g_ans_app)))")],
            raises=[Raise("Exception", "True", "may")],
            ghost_modifies=["self.g_ans_app", "self.g_ans_msg"],
-           modifies=["*WaitingMessage.answer", "*Event.flag"], props=["C10", "C07"])
+           modifies=["*WaitingMessage.answer", "*Event.flag", "dict:self._app_waiting_answer"], props=["C10", "C07"])
 
 # capabilities exchange handlers: contracts used by _receive_message (verified under C06)
 R.contract("Node.receive_cer", params={"self": "Node", "conn": "PeerConnection", "message": "Message"},
@@ -347,6 +347,7 @@ R.contract("Node._receive_message", params={"self": "Node", "conn": "PeerConnect
            raises=[],
            ghost_modifies=["conn._write_msg_queue.g_put", "self.g_dlv_app", "self.g_dlv_msg", "self.g_ans_app", "self.g_ans_msg"],
            modifies=["dict:self._sent_answers", "dict:self._origin_waiting_answer", "*deque:int", "dict:self._peer_waiting_answer",
+                     "dict:self._app_waiting_answer",
                      "*dict:Dict[int,float]", "*PeerCounters.cer", "*PeerCounters.cea", "*PeerCounters.dwr", "*PeerCounters.dwa",
                      "*PeerCounters.dpr", "*PeerCounters.dpa", "*PeerCounters.requests", "*PeerCounters.answers",
                      "*PeerConnection.state", "*PeerConnection._last_dwr", "conn.node_name", "conn.auth_application_ids",
@@ -486,7 +487,7 @@ R.contract("Node.route_answer", params={"self": "Node", "message": "Message"}, r
                          "not (k0 in self.connections and self.connections[k0].host_identity == h0 and "
                          + _READY2 % ("self.connections[k0]", READY, "self.connections[k0]", READY_WAITING_DWA) + ")", "only_if")],
            modifies=["dict:self._peer_waiting_answer[h0]"],
-           props=["C09", "C19"],
+           props=["C09"],
            note="h0 = host identity of the connection the request arrived on; k0 = an arbitrary connection id (witness)")
 R.loop("Node.route_answer", 0,
        invariants=[("not-found-yet", "is_none(waiting_host_identity)"),
